@@ -2157,3 +2157,48 @@ M('C19','ontwin-product-under-wrong-pin','core/safemath/safe_math.go',"""		if x 
 		}""","""		if x == 1 || y == 2 {
 			return x * y, nil
 		}""",'wrap/round-trip-validated', base='C19-20')
+# ---- on the round-8 corrected twins
+M('C08','ontwin-completed-flag-published-before-start','kvstore/batch_writer.go',"""		defer bw.autoStarted.Store(true)
+		bw.startBatchWriter()""","""		bw.autoStarted.Store(true)
+		bw.startBatchWriter()""",'publish/auto-start-is-a-barrier', base='C08-22')
+M('C08','ontwin-completed-flag-claimed-by-swap','kvstore/batch_writer.go',"""	if !bw.autoStarted.Load() {
+		defer bw.autoStarted.Store(true)
+		bw.startBatchWriter()
+	}""","""	if !bw.autoStarted.Swap(true) {
+		bw.startBatchWriter()
+	}""",'publish/auto-start-is-a-barrier', base='C08-22')
+M('C20','ontwin-early-flag-with-cleanup-by-name','app/daemon/daemon.go',"""	if d.workers[name] != finishedWorker {
+		return
+	}
+""","""""",'worker/done-cleanup-order', base='C20-22')
+M('C20','ontwin-flag-cleared-before-done','app/daemon/daemon.go',"""		shutdownOrderWaitGroup.Done()
+		worker.running.Store(false)
+""","""		worker.running.Store(false)
+		shutdownOrderWaitGroup.Done()
+""",'worker/done-cleanup-order', base='C20-22')
+M('C15','ontwin-atomic-link-hooked-before-unhook','runtime/event/event.go',"""	if link := e.link.Load(); link != nil {
+		link.Unhook()
+	}
+
+	if IsInterfaceNil(target) {
+		e.link.Store(nil)
+	} else {
+		e.link.Store(target.Hook(triggerFunc))
+	}""","""	link := e.link.Load()
+
+	if IsInterfaceNil(target) {
+		e.link.Store(nil)
+	} else {
+		e.link.Store(target.Hook(triggerFunc))
+	}
+
+	if link != nil {
+		link.Unhook()
+	}""",'link/unhook-before-hook', base='C15-22')
+M('C16','ontwin-start-relocks-only-on-one-branch','runtime/workerpool/workerpool.go',"""		w.mutex.Unlock()
+		w.ShutdownComplete.Wait()
+		w.mutex.Lock()
+""","""		w.mutex.Unlock()
+		w.ShutdownComplete.Wait()
+""",'lock/', base='C16-22')
+M("C01","ontwin-encoder-tests-kind","serializer/serix/utils.go","""arrType.Elem() == bytesType.Elem()""","""arrType.Elem().Kind() == reflect.Uint8""",'mirror/byte-array-predicate', base='C01-22')
